@@ -368,7 +368,9 @@ def run_scenario(case, *, inspect=None, max_steps=400_000):
             obs.phase = "settled"
             obs.net_events_at_settle = world.net.seq
             if inspect:
-                inspect(world, obs, "settled")
+                r = inspect(world, obs, "settled")
+                if asyncio.iscoroutine(r):
+                    await r  # e.g. a fresh session that must still be served
             if case.get("final_close", True):
                 t = getattr(obs, "server_close_task", None)
                 if t is None:
